@@ -135,6 +135,8 @@ def api_mutation(job):
                     elif c.classname == 'Group':
                         yield from segs(c)
             cands = [c for c in segs(m) if c.name != 'MSH']
+            if not cands:
+                return ('skip', None)
             # a segment whose last field is 'varies' accepts extra <SEG>_<n> fields: the unknown field must still be reported there
             seg = ([c for c in cands if c.allow_infinite_children] or cands)[len(t) % len([c for c in cands if c.allow_infinite_children] or cands)]
             seg.add(Field(version=m.version, validation_level=vlib.level(False)))
@@ -254,6 +256,8 @@ def run(tier, seed):
             if key is None and agree:
                 names_ = [l[:3] for l in t.split('\r')]
                 key = ['T:%s:%s' % (v, n) for n in names_ if n in ex.get(v, [])] or None
+            if key is None and agree and v == '2.1':
+                key = 'D2:2.1:group-none-ref'      # v2.1 group rows with None references: the finder cannot descend into them
             # group finding may have placed the duplicated / remaining segments differently (findings D4, D16)
             chk.fail(key, {'clause': 'error-names-the-element', 'expected_error': want, 'errors': errs[:8], **rep}, rep)
     # API-level mutations on conforming instances
